@@ -212,27 +212,37 @@ func ValidateSeam(b []byte) ([]Verdict, error) {
 // model.TrustedCertDir (again bumping the store revision) and deletes the scratch directory.
 // With the configuration directory disabled and model.TrustedCertDir left empty the API cannot be used at all:
 // LoadCertificates fails walking "" ("load trust pool").
+var (
+	trustOnce sync.Once
+	trustDir  string
+	trustErr  error
+)
+
+// Cleanup removes the scratch trust directory created by ValidateAPI.
+func Cleanup() {
+	if trustDir != "" {
+		os.RemoveAll(trustDir)
+	}
+}
+
+// ValidateAPI runs the public api.ValidateSignaturesRaw(all=true). The scratch trust directory holding RootPEM()
+// is created once per process (remove it with Cleanup) and model.TrustedCertDir points at it from then on.
 func ValidateAPI(b []byte) ([]Verdict, error) {
 	globalMu.Lock()
 	defer globalMu.Unlock()
 
 	conf := offlineConf()
-
-	dir, err := os.MkdirTemp("", "sigdoc-certs-")
-	if err != nil {
-		return nil, fmt.Errorf("sigdoc: scratch trust dir: %w", err)
-	}
-	defer os.RemoveAll(dir)
-	if err := os.WriteFile(filepath.Join(dir, "root.pem"), RootPEM(), 0o600); err != nil {
-		return nil, fmt.Errorf("sigdoc: scratch trust dir: %w", err)
-	}
-	prev := model.TrustedCertDir
-	model.TrustedCertDir = dir
-	model.MarkCertificateStoreChanged()
-	defer func() {
-		model.TrustedCertDir = prev
+	trustOnce.Do(func() {
+		trustDir, trustErr = os.MkdirTemp("", "sigdoc-certs-")
+		if trustErr == nil {
+			trustErr = os.WriteFile(filepath.Join(trustDir, "root.pem"), RootPEM(), 0o600)
+		}
+		model.TrustedCertDir = trustDir
 		model.MarkCertificateStoreChanged()
-	}()
+	})
+	if trustErr != nil {
+		return nil, fmt.Errorf("sigdoc: scratch trust dir: %w", trustErr)
+	}
 
 	results, err := api.ValidateSignaturesRaw(bytes.NewReader(b), true, conf)
 	if err != nil {
